@@ -79,6 +79,7 @@ func c07Options(t *tape.Tape, thorough bool) gen.Options {
 	o.Lambdas = t.Bool(1, 2)
 	o.Overloads = t.Bool(1, 4)
 	o.BigBodies = t.Bool(1, 4)
+	o.TwinNames = t.Bool(1, 3)
 	return o
 }
 
